@@ -55,6 +55,39 @@ def runs4(rnd, n, k=None):
     return (unit * (n // len(unit) + 1))[:n]
 
 
+def sprinkled4(rnd, n, level=1):
+    """Run-free bytes with a few runs of exactly four per level*100000-byte piece: the run-length stage expands each piece
+    by 1-70 bytes, so that a piece overshoots the block capacity by a handful of bytes (tiny remainder blocks)."""
+    piece = level * 100000
+    out = bytearray()
+    while len(out) < n:
+        m = min(piece, n - len(out))
+        base = bytearray(rnd.randbytes(m))
+        for i in range(1, m):
+            if base[i] == base[i - 1]:
+                base[i] = (base[i] + 1 + (i & 1)) & 255
+                if base[i] == base[i - 1]:
+                    base[i] = (base[i] + 1) & 255
+        r = rnd.choice([1, 2, 5, 10, 20, 35, 50, 70])
+        if m > 8 * r + 16:
+            step = m // (r + 1)
+            for k in range(r):
+                p = (k + 1) * step
+                c = base[p]
+                # neighbours must differ from the run byte so that the run is exactly four long
+                if base[p - 1] == c:
+                    base[p - 1] = (c + 1) & 255
+                    if p >= 2 and base[p - 2] == base[p - 1]:
+                        base[p - 1] = (c + 2) & 255
+                base[p:p + 4] = bytes([c]) * 4
+                if p + 4 < m and base[p + 4] == c:
+                    base[p + 4] = (c + 3) & 255
+                    if p + 5 < m and base[p + 5] == base[p + 4]:
+                        base[p + 4] = (c + 5) & 255
+        out += base
+    return bytes(out[:n])
+
+
 def fib(n, a=b'a', b=b'b'):
     x, y = a, b
     while len(y) < n:
@@ -255,7 +288,7 @@ def bwt_designed(rnd, n, ratio=0.618, K=40):
     return bytes(out).translate(bytes((base + c) & 0xff for c in range(256)))
 
 
-FAMILIES = ['runs4', 'uniform', 'k2', 'k3', 'k4', 'k16', 'text', 'runs', 'onebyte', 'fib',
+FAMILIES = ['runs4', 'sprinkled4', 'uniform', 'k2', 'k3', 'k4', 'k16', 'text', 'runs', 'onebyte', 'fib',
             'tandem', 'period', 'allbytes', 'sorted', 'skewed', 'boundary', 'concat', 'tiny']
 
 
@@ -270,6 +303,8 @@ def make(rnd, family, n, level=1):
         return runs(rnd, n)
     if family == 'runs4':
         return runs4(rnd, n)
+    if family == 'sprinkled4':
+        return sprinkled4(rnd, n, level)
     if family == 'onebyte':
         return bytes([rnd.randrange(256)]) * n
     if family == 'fib':
